@@ -1607,8 +1607,9 @@ func callBin(n *node) {
 				ind := c.findex + j
 				values = append(values, func(f *frame) reflect.Value { return valueInterfaceValue(f.data[ind]) })
 			}
-		case isRegularCall(c):
+		case isRegularCall(c) && len(c.child[0].typ.ret) != 1:
 			// Handle nested function calls: pass returned values as arguments
+			// (a single result is an ordinary operand, wrapped if the parameter is an interface).
 			for j := range c.child[0].typ.ret {
 				ind := c.findex + j
 				values = append(values, func(f *frame) reflect.Value { return valueInterfaceValue(f.data[ind]) })
